@@ -4,6 +4,7 @@ Proof: Properties/C05.v (fold over candidate actions: winner, conflict set, orde
 Tie R: for every state and terminal of every conflicting grammar of the run, the cell of the COMPILED action table equals
        row_action(candidates) where the candidates are re-derived from gocc's dumped item sets, and the dumped conflict set equals
        the model's (as a set).
+Tie K: GenAuto.gen_run_auto (verified Gallina generator, mode -a) vs gocc -a: item sets, numbering, count, refusal, compiled resolved tables.
 Tie K: with -a, compiled parser vs Parse model on those tables (verdict and full reduction sequence: every alternative logs).
 Oracle: the rule itself (shift, else least production) evaluated in the harness on the candidates vs the compiled cell."""
 import collections
@@ -67,11 +68,27 @@ def run(ctx):
     cands_g += [all_actions(cfggen.gen_cfg(ctx.rng, max_nt=ctx.rng.choice([1, 2, 3, 4]))) for _ in range(90 if not thorough else 900)]
     cands_g = [g for g in cands_g if not g.has_error()]
     recs, stats, ws = lrcommon.prepare_parsers(ctx, cands_g, flags=["-a"])
+    refused = [r for r in recs if r.dump.get("states") and r.dump.get("panic")][:10]
     recs = [r for r in recs if r.bin and r.dump.get("numConflicts", 0) > 0][: (30 if not thorough else 300)]
+    # K: the Gallina model of the generator in mode -a (GenAuto.gen_run_auto; Properties/C05.v: every cell it writes is the winner of
+    # row_action, for EVERY grammar) against gocc -a: item sets, numbering, announced count, refusal, and the RESOLVED tables read back
+    # from the compiled parser
+    gen_bad = []
+    for r in recs + refused:
+        gc = lrcommon.gen_compare(ctx, r, auto=True)
+        if gc:
+            gen_bad.append((r, gc))
+    ctx.add_obligation("K: GenAuto.gen_run_auto (verified generator model, mode -a) = gocc -a on %d conflicting and %d refused grammars "
+                       "(item sets, numbering, conflict count, refusal, resolved action/goto tables as compiled)" % (len(recs), len(refused)),
+                       not gen_bad, "; ".join(x for (_, x) in gen_bad[:3]))
     cells = 0
     conflict_cells = 0
     multi = 0
     reported = 0
+    for (r, gc) in gen_bad[:2]:
+        ctx.violation({"kind": "correspondence-broken", "correspondence": "GenAuto.gen_run_auto (Gallina generator, mode -a) vs gocc -a",
+                       "grammar": r.text, "difference": gc}, found_input=False)
+        reported += 1
     lines = []
     index = []
     for r in recs:
@@ -134,7 +151,7 @@ def run(ctx):
         if len(samples) < 3:
             samples.append({"grammar": r.text, "gocc": r.gocc_out.split("\n")[0], "tokens": inputs[0], "parser": go[0][:200]})
     for o in ctx.failed_obligations():
-        if reported < 6 and not o["name"].startswith("R: every compiled"):
+        if reported < 6 and not o["name"].startswith(("R: every compiled", "K: GenAuto")):
             ctx.violation({"kind": "proof-obligation-broken", "obligation": o}, found_input=False)
             reported += 1
     ctx.write_evidence("proof", {
